@@ -96,14 +96,8 @@ In(e, b) == [e EXCEPT !.body = b]
 Witnesses ==
   { [tag |-> "attrListKeyedByQName",
      ss  |-> WithBody(NoCtx, <<In(Lre("", <<>>, <<>>, <<>>, <<>>), <<Att("p", TRUE, V, "1"), Att("q", TRUE, V, "2")>>)>>)],
-    [tag |-> "copiedAttributeNotFixedUp",
-     ss  |-> WithBody(NoCtx, <<In(Lre("", <<>>, <<>>, <<>>, <<>>), <<[i |-> "copy-of-attr", node |-> 3, a |-> 1]>>)>>)],
-    [tag |-> "aliasAppliedToXslAttribute",
-     ss  |-> WithBody([NoCtx EXCEPT !.nsd = <<<<"p", U>>, <<"q", V>>>>, !.alias = <<<<"p", "q">>>>], <<In(Elt("", FALSE, ""), <<Att("p", FALSE, "", "1")>>)>>)],
     [tag |-> "staleExcludedPrefix",
      ss  |-> WithBody([NoCtx EXCEPT !.nsd = <<<<"p", U>>>>, !.excl = <<"p">>], <<In(Lre("", <<<<"p", V>>>>, <<>>, <<>>, <<>>), <<Att("p", FALSE, "", "1")>>)>>)],
-    [tag |-> "defaultDeclarationIsLiteralAttribute",
-     ss  |-> WithBody([NoCtx EXCEPT !.nsd = <<<<"p", U>>>>], <<Lre("p", <<<<"", V>>>>, <<"">>, <<>>, <<>>)>>)],
     [tag |-> "literalAttributePrefixRebound",
      ss  |-> WithBody([NoCtx EXCEPT !.nsd = <<<<"q", U>>>>, !.sets = <<S1Set>>],
                       <<In(Lre("", <<>>, <<>>, <<>>, <<>>), <<Lre("", <<>>, <<>>, <<[p |-> "q", l |-> "y", v |-> "b"]>>, <<"s1">>)>>)>>)] }
